@@ -102,6 +102,36 @@ class Sim:
         )
 
 
+import time as _time_mod  # noqa: E402
+
+_REAL = {k: getattr(_time_mod, k) for k in ('sleep', 'monotonic', 'perf_counter', 'time', 'monotonic_ns', 'time_ns')}
+_CLOCK_BINDINGS = None
+_SWEEP_PREFIXES = ('pytezos.rpc', 'pytezos.operation', 'pytezos.context', 'pytezos.client', 'pytezos.contract')
+
+
+def _clock_bindings():
+    """(module, name, kind) for every name in the client-side pytezos modules bound to a real clock.  Computed once per
+    process (the code under test does not change within a process)."""
+    global _CLOCK_BINDINGS
+    if _CLOCK_BINDINGS is None:
+        import sys
+
+        found = []
+        real_ids = {id(v) for v in _REAL.values()}
+        for mname, mod in sorted(sys.modules.items()):
+            if mod is None or not mname.startswith(_SWEEP_PREFIXES):
+                continue
+            for name, val in list(vars(mod).items()):
+                if id(val) in real_ids:
+                    found.append((mod, name, 'func'))
+                elif val is _time_mod:
+                    found.append((mod, name, 'time_module'))
+                elif val is _real_datetime and mname.startswith('pytezos.rpc'):
+                    found.append((mod, name, 'datetime_class'))
+        _CLOCK_BINDINGS = found
+    return _CLOCK_BINDINGS
+
+
 def make_datetime_class(sim):
     class SimDateTime(_real_datetime):
         @classmethod
@@ -128,7 +158,7 @@ def make_datetime_class(sim):
 # ---------------------------------------------------------------------------------
 
 
-def make_response(status, ctype, body, url='', reason=None):
+def make_response(status, ctype, body, url='', reason=None, headers=None):
     """A *real* requests.Response carrying bytes: everything pytezos does with a
     response (`.json()` with requests' own JSONDecodeError, `.text`, headers lookup)
     is the library's code, not a stub."""
@@ -137,6 +167,8 @@ def make_response(status, ctype, body, url='', reason=None):
     r._content = body if isinstance(body, bytes) else str(body).encode()
     r._content_consumed = True
     r.headers = CaseInsensitiveDict({'content-type': ctype} if ctype else {})
+    for hk, hv in (headers or {}).items():
+        r.headers[hk] = hv
     r.encoding = 'utf-8'
     r.url = url
     r.reason = reason or ''
@@ -146,14 +178,15 @@ def make_response(status, ctype, body, url='', reason=None):
 class Reply:
     """What a world handler returns for one delivered request."""
 
-    __slots__ = ('status', 'ctype', 'body', 'exc', 'note')
+    __slots__ = ('status', 'ctype', 'body', 'exc', 'note', 'headers')
 
-    def __init__(self, status=200, body=b'', ctype='application/json', exc=None, note=None):
+    def __init__(self, status=200, body=b'', ctype='application/json', exc=None, note=None, headers=None):
         self.status = status
         self.ctype = ctype
         self.body = body
         self.exc = exc
         self.note = note
+        self.headers = headers
 
     @classmethod
     def js(cls, obj, status=200, note=None):
@@ -314,7 +347,7 @@ class Transport:
         rec['status'] = reply.status
         if reply.note:
             rec['note'] = reply.note
-        return make_response(reply.status, reply.ctype, reply.body, url=full)
+        return make_response(reply.status, reply.ctype, reply.body, url=full, headers=reply.headers)
 
 
 class Seams:
@@ -345,7 +378,30 @@ class Seams:
         self._set(node_mod, 'requests', shim)
         self._set(node_mod, 'sleep', self.sim.sleep)
         self._set(shell_mod, 'sleep', self.sim.sleep)
-        self._set(shell_mod, 'datetime', make_datetime_class(self.sim))
+        simdt = make_datetime_class(self.sim)
+        self._set(shell_mod, 'datetime', simdt)
+        # Clock sweep: any other name in the client-side pytezos modules that is bound to a real clock (a mutant or a future
+        # version may read time.monotonic(), time.time(), datetime.now() ...) is rebound to the virtual clock as well, so that
+        # no deadline in the code under test can silently run on the host's clock.
+        sim = self.sim
+        virt = {
+            id(_REAL['sleep']): sim.sleep,
+            id(_REAL['monotonic']): lambda: 1000.0 + sim.now_ms / 1000.0,
+            id(_REAL['perf_counter']): lambda: 1000.0 + sim.now_ms / 1000.0,
+            id(_REAL['time']): lambda: EPOCH0 + sim.now_ms / 1000.0,
+            id(_REAL['monotonic_ns']): lambda: int((1000.0 + sim.now_ms / 1000.0) * 1e9),
+            id(_REAL['time_ns']): lambda: int((EPOCH0 + sim.now_ms / 1000.0) * 1e9),
+        }
+        time_shim = types.SimpleNamespace(**{k: virt[id(v)] for k, v in _REAL.items()})
+        for mod, name, kind in _clock_bindings():
+            if (mod is node_mod and name in ('sleep', 'requests')) or (mod is shell_mod and name in ('sleep', 'datetime')):
+                continue
+            if kind == 'func':
+                self._set(mod, name, virt[id(getattr(mod, name))])
+            elif kind == 'time_module':
+                self._set(mod, name, time_shim)
+            elif kind == 'datetime_class':
+                self._set(mod, name, simdt)
 
         # tripwires: no real sleep, no real socket on any simulated path
         def _no_sleep(_s):
